@@ -585,8 +585,10 @@ func (s *hybridSearch) Execute() ([]HybridSearchResult, error) {
 		combinedScores = make(map[uint32]float64)
 	}
 
-	// If only metadata search was performed (no vector or text)
-	if len(combinedScores) == 0 && len(candidateIDs) > 0 {
+	// If only metadata search was performed (no vector or text).
+	// A vector/text query that matched nothing inside the filter (or a fusion
+	// that produced nothing) must stay empty instead of returning every filter match.
+	if len(s.vectorQuery) == 0 && len(s.textQueries) == 0 && len(candidateIDs) > 0 {
 		for _, id := range candidateIDs {
 			combinedScores[id] = 1.0
 		}
